@@ -118,10 +118,16 @@ WeightsBounded ==
   \A b \in blocks : \A i \in 1..Len(b.votes.infos) :
     LET e == b.votes.infos[i] tot == Total(ParamsAt(b.votes.params, e.h).w) IN e.pv <= tot /\ e.pc <= tot
 
+\* API.AreHeadersContradicting (the premise of C01 as the code can evaluate it on any two headers it is shown): two
+\* DIFFERENT block headers contradict iff LIP-0014 says so; a header never contradicts itself.  Ids are structural, so two
+\* blocks with equal header fields on different parents are different headers (their real ids differ as well).
+Attributable(a, b) == a.id # b.id /\ a.h > 0 /\ b.h > 0 /\ Contra(Hdr(a), Hdr(b))
+
 (* ------------------------------ dumps for replay ------------------------- *)
 Summary(b) ==
   [id |-> b.id, h |-> b.h, gen |-> b.gen, mhg |-> b.mhg, mhp |-> b.mhp, chg |-> b.chg,
    mhpv |-> b.votes.mhpv, mhpc |-> b.votes.mhpc,
+   contra |-> SetToSeq({x.id : x \in {y \in blocks : Attributable(y, b)}}),
    win |-> [i \in 1..Len(b.votes.infos) |-> <<b.votes.infos[i].h, b.votes.infos[i].pv, b.votes.infos[i].pc>>],
    vinfo |-> [v \in Validators |-> <<IF b.votes.vinfo[v].active THEN 1 ELSE 0, b.votes.vinfo[v].minActive, b.votes.vinfo[v].lhp>>],
    pkeys |-> [i \in 1..Len(b.votes.params) |-> b.votes.params[i].from]]
